@@ -238,6 +238,30 @@ def body_sessions(E, api, f1, f2, f3, f4, mode, b, base):
         return same_nested(out, ref) and not env.exists(crop_dir(env))
 
 
+def body_successive(E, api, kind, f1, base, base2):
+    """one process, the same crop name and directory used twice with two different functions: first crop sown,
+    grown and reaped (kind 0) or sown and grown only, then sown again with the new function (kind 1); every batch
+    is grown by a fresh `grow(i, Crop(name))` as a worker does.  The results are those of the second function."""
+    api = concretize(api, 0, 1)
+    kind = concretize(kind, 0, 1)
+    n = 2
+    fn1, fn2 = mkfn(base), mkfn(base2)
+    with E() as env:
+        ref2 = direct_for_reap(api, fn2, n)
+        crop = cp.Crop(fn=fn1, name="t", parent_dir=env.parent, batchsize=1)
+        sow(crop, api, n)
+        for i in range(1, crop.num_batches + 1):
+            cp.grow(i, crop=cp.Crop(name="t", parent_dir=env.parent) if cbool(f1) else crop, verbosity=0)
+        if kind == 0:
+            crop.reap()
+        crop = cp.Crop(fn=fn2, name="t", parent_dir=env.parent, batchsize=1)
+        sow(crop, api, n)
+        for i in range(1, crop.num_batches + 1):
+            cp.grow(i, crop=cp.Crop(name="t", parent_dir=env.parent) if cbool(f1) else crop, verbosity=0)
+        out = crop.reap()
+        return same_nested(out, ref2) and not env.exists(crop_dir(env))
+
+
 # --------------------------------------------------------------------------
 # (e) the real pickling library lookup (to_pickle / from_pickle / get_picklelib)
 def _module_level_fn(a, b=0):
@@ -332,6 +356,11 @@ CONDS = (
                   bounds="3 settings; a fresh Crop(name, parent_dir) object optionally before the first grow, before "
                          "the remaining grows (explicit or grow_missing) and before the reap; all batching modes; "
                          + _API)
+    + [make_cond(_G, "successive", body_successive, "api:int kind:int f1:bool base:int base2:int",
+                 ["0 <= api <= 1 and 0 <= kind <= 1 and base != base2"], timeout=200,
+                 bounds="the same crop name and directory used for two different functions in one process (after a "
+                        "reap, or by a re-sow without reap), batches grown by the sowing object or by "
+                        "Crop(name) objects: the second reap returns the second function's values")]
     + [make_cond(_G, "realpickle", body_realpickle, "fresh:bool nb:int", ["1 <= nb <= 2"], timeout=120,
                  bounds="the real get_picklelib/to_pickle/from_pickle with a module-level function; function loaded "
                         "from disk by grow and by a fresh Crop"),
